@@ -1,22 +1,3 @@
-"""C16 -- graphs and grammars stay well formed under any sequence of API calls."""
-from vf import core
-from props._common import add_bounded, add_pyvc
-
-FILES = ["graph.py"]
-
-
-def run_obligations(ctx):
-    rep = core.Report(property_id="C16", level="other")
-    add_pyvc(rep, ctx, "C16", FILES)
-    return rep
-
-
-def run(ctx):
-    rep = run_obligations(ctx)
-    rep.explanation = ("Per-operation contracts (requires wf; ensures wf + exact update of the whole view + frame; "
-                       "raises iff; state unchanged on raise) on the real methods of fggs/fggs.py, VCs generated from "
-                       "the AST and discharged by z3 (unbounded: loops by invariant). Sequences of calls are covered "
-                       "by induction over the per-operation contracts; a bounded breadth-first exploration of call "
-                       "histories re-checks the same invariants natively and is reported separately.")
-    add_bounded(rep, ctx, "C16")
-    return rep
+"""C16 -- see props/_common.SPEC and DESIGN.md section 5."""
+from props._common import make
+run, run_obligations = make("C16")
